@@ -39,6 +39,10 @@ type Solver struct {
 	Trace     io.Writer // optional transcript
 	inPath    bool
 	Mirror    *Solver // optional second solver that receives the same session; verdicts are compared
+	MirrorAll  bool   // mirror every check (default: only the checks announced through MirrorNext, i.e. assertion queries)
+	MirrorNext bool
+	mirrorThis bool
+	MirrorChecks int
 	Disagree  int
 	Slowest   time.Duration
 	NSlow     int
@@ -119,7 +123,7 @@ func (s *Solver) send(line string) {
 	}
 	io.WriteString(s.in, line)
 	io.WriteString(s.in, "\n")
-	if s.Mirror != nil && !strings.HasPrefix(line, "(get-value") && !strings.HasPrefix(line, "(set-option :timeout") {
+	if s.Mirror != nil && !strings.HasPrefix(line, "(get-value") && !strings.HasPrefix(line, "(set-option :timeout") && (s.mirrorThis || !strings.HasPrefix(line, "(check-sat")) {
 		io.WriteString(s.Mirror.in, line)
 		io.WriteString(s.Mirror.in, "\n")
 	}
@@ -269,6 +273,11 @@ func (s *Solver) Check(st *Store, assume []*Term, negate []bool) Result {
 	}
 	t0 := time.Now()
 	s.Queries++
+	s.mirrorThis = s.Mirror != nil && (s.MirrorAll || s.MirrorNext)
+	s.MirrorNext = false
+	if s.mirrorThis {
+		s.MirrorChecks++
+	}
 	if len(lits) == 0 {
 		s.send("(check-sat)")
 	} else {
@@ -316,7 +325,7 @@ func (s *Solver) Check(st *Store, assume []*Term, negate []bool) Result {
 			break
 		}
 	}
-	if s.Mirror != nil {
+	if s.Mirror != nil && s.mirrorThis {
 		mv := s.mirrorVerdict()
 		if mv != Unknown && res != Unknown && mv != res {
 			s.Disagree++
